@@ -669,3 +669,136 @@ func anyGeneric(job JobCfg, src *types.Package) bool {
 	}
 	return false
 }
+
+// An independent copy of the documented field-name rule (C13): the parameter name with its first
+// letter upper-cased, or entirely upper-cased when it is, ignoring case, a well-known initialism.
+var commonInitialisms = map[string]bool{"ACL": true, "API": true, "ASCII": true, "CPU": true, "CSS": true, "DNS": true,
+	"EOF": true, "GUID": true, "HTML": true, "HTTP": true, "HTTPS": true, "ID": true, "IP": true, "JSON": true,
+	"LHS": true, "QPS": true, "RAM": true, "RHS": true, "RPC": true, "SLA": true, "SMTP": true, "SQL": true,
+	"SSH": true, "TCP": true, "TLS": true, "TTL": true, "UDP": true, "UI": true, "UID": true, "UUID": true,
+	"URI": true, "URL": true, "UTF8": true, "VM": true, "XML": true, "XMPP": true, "XSRF": true, "XSS": true}
+
+func fieldNameRule(param string) string {
+	if param == "" {
+		return ""
+	}
+	if u := strings.ToUpper(param); commonInitialisms[u] {
+		return u
+	}
+	return strings.ToUpper(param[:1]) + param[1:]
+}
+
+// checkFieldNames is the C13 oracle on the parsed output: per generated method, the fields of the
+// call record follow the parameter names by the rule above; and a parameter name written in the
+// interface is kept verbatim when it is not the name of an imported package of the file.
+func checkFieldNames(c *Checked, job JobCfg) string {
+	quals := map[string]bool{}
+	for _, im := range c.file.Imports {
+		if im.Name != nil {
+			quals[im.Name.Name] = true
+		}
+	}
+	for _, ip := range c.pkg.Imports() {
+		quals[ip.Name()] = true
+	}
+	for _, d := range c.file.Decls {
+		fd, ok := d.(*ast.FuncDecl)
+		if !ok || fd.Recv == nil || fd.Body == nil {
+			continue
+		}
+		// the method that records: its body starts (after the optional nil check) with callInfo := struct{…}{…}
+		var rec *ast.StructType
+		ast.Inspect(fd.Body, func(n ast.Node) bool {
+			if as, ok := n.(*ast.AssignStmt); ok && len(as.Lhs) == 1 {
+				if id, ok := as.Lhs[0].(*ast.Ident); ok && id.Name == "callInfo" {
+					if cl, ok := as.Rhs[0].(*ast.CompositeLit); ok {
+						rec, _ = cl.Type.(*ast.StructType)
+					}
+				}
+			}
+			return rec == nil
+		})
+		if rec == nil {
+			continue
+		}
+		var params, fields []string
+		for _, f := range fd.Type.Params.List {
+			for _, n := range f.Names {
+				params = append(params, n.Name)
+			}
+		}
+		for _, f := range rec.Fields.List {
+			for _, n := range f.Names {
+				fields = append(fields, n.Name)
+			}
+		}
+		if len(params) != len(fields) {
+			return fmt.Sprintf("method %s: %d parameters but %d record fields", fd.Name.Name, len(params), len(fields))
+		}
+		for i := range params {
+			if want := fieldNameRule(params[i]); fields[i] != want {
+				return fmt.Sprintf("method %s: parameter %s is recorded in field %s, the rule gives %s", fd.Name.Name, params[i], fields[i], want)
+			}
+		}
+		// user-written names kept verbatim
+		for _, a := range job.Args {
+			in, mk := splitArg(a)
+			recvName := ""
+			if len(fd.Recv.List) == 1 {
+				t := fd.Recv.List[0].Type
+				if st, ok := t.(*ast.StarExpr); ok {
+					t = st.X
+				}
+				if ix, ok := t.(*ast.IndexExpr); ok {
+					t = ix.X
+				}
+				if ix, ok := t.(*ast.IndexListExpr); ok {
+					t = ix.X
+				}
+				if id, ok := t.(*ast.Ident); ok {
+					recvName = id.Name
+				}
+			}
+			if recvName != mk {
+				continue
+			}
+			obj := c.src.Scope().Lookup(in)
+			if obj == nil {
+				continue
+			}
+			it, ok := obj.Type().Underlying().(*types.Interface)
+			if !ok {
+				continue
+			}
+			for k := 0; k < it.NumMethods(); k++ {
+				m := it.Method(k)
+				if m.Name() != fd.Name.Name {
+					continue
+				}
+				sig := m.Type().(*types.Signature)
+				if sig.Params().Len() != len(params) {
+					continue
+				}
+				seen := map[string]int{}
+				for i := 0; i < sig.Params().Len(); i++ {
+					seen[sig.Params().At(i).Name()]++
+				}
+				for i := 0; i < sig.Params().Len(); i++ {
+					un := sig.Params().At(i).Name()
+					if un == "" || un == "_" || quals[un] || seen[un] > 1 {
+						continue
+					}
+					// a name that can coincide with a generated one (result variables end in Out,
+					// numbered and suffixed variants) may legitimately be renamed after a collision
+					if strings.HasSuffix(un, "Out") || strings.HasSuffix(un, "MoqParam") || (un[len(un)-1] >= '0' && un[len(un)-1] <= '9') {
+						continue
+					}
+					if params[i] != un && !quals[un] {
+						return fmt.Sprintf("method %s: parameter written %s in the interface is generated as %s", fd.Name.Name, un, params[i])
+					}
+				}
+			}
+		}
+	}
+	return ""
+}
